@@ -446,6 +446,164 @@ Proof.
   rewrite Z_mod_plus_full. rewrite Zminus_mod_idemp_r. rewrite Z.sub_diag. reflexivity.
 Qed.
 
+(** * Bounded-time jailing over several blocks *)
+Section Bounded.
+Variable version : Type.
+Variable vlt : version -> version -> bool.
+Notation state := (state version).
+Notation op := (op version).
+
+(** a validator that is due: eligible, unjailed, keep-alive expired or never sent, already in the
+    previous block's unjailed snapshot, last grace period (if any) over — in a well-formed state
+    whose legacy entry is gone *)
+Definition due (s : state) (v : val) : Prop :=
+  wf_state version s /\ snap_inv version s /\ snap_legacy s = None /\
+  In v (vals s) /\ eligible_status (v_status v) = true /\ v_jailed v = false /\
+  (forall u, lookup (v_addr v) (alive s) = Some u -> u <= height s) /\
+  In (v_addr v) (prev_unjailed s) /\
+  (forall g, lookup (v_addr v) (grace s) = Some g -> Gen.C12.grace_period < height s - g).
+
+Lemma due_not_alive : forall s v, due s v -> is_alive s (v_addr v) = false.
+Proof.
+  intros s v (_ & _ & _ & _ & _ & _ & Ha & _). unfold is_alive.
+  destruct (lookup (v_addr v) (alive s)) as [u|] eqn:E; [|reflexivity].
+  apply Z.ltb_ge. now apply Ha.
+Qed.
+
+Lemma due_not_in_grace : forall s v, due s v -> in_grace s (v_addr v) = false.
+Proof.
+  intros s v (_ & _ & _ & _ & _ & _ & _ & _ & Hg). unfold in_grace.
+  destruct (lookup (v_addr v) (grace s)) as [g|] eqn:E; [|reflexivity].
+  apply Z.leb_gt. now apply Hg.
+Qed.
+
+(** the one-block statement on invariants instead of on [run ops init] *)
+Lemma due_settled_at_check : forall s v dh dt, due s v -> is_check_height (height s) = true ->
+  settled version (v_addr v) (step vlt s (EndBlock dh dt)).
+Proof.
+  intros s v dh dt D Hc.
+  pose proof (due_not_alive s v D) as Ha. pose proof (due_not_in_grace s v D) as Hg.
+  destruct D as (W & I & Hl & Hin & He & Hj & _ & Hp & _).
+  destruct (update_grace_total version s W) as [s1 Hu].
+  cbn [step]. apply settled_set_clock.
+  unfold end_block. rewrite Hu. cbn [fst].
+  pose proof (update_grace_lookup version s s1 (v_addr v) Hu) as Hlk.
+  apply update_grace_spec in Hu as [blob [_ E]].
+  assert (Hh : height s1 = height s) by (rewrite E; reflexivity).
+  assert (Hv : vals s1 = vals s) by (rewrite E; reflexivity).
+  assert (Hal : alive s1 = alive s) by (rewrite E; reflexivity).
+  rewrite Hh, Hc.
+  apply sweep_settles; auto.
+  - rewrite Hv. apply W.
+  - now rewrite Hv.
+  - rewrite <- Ha. now apply is_alive_ext.
+  - rewrite <- Hg. unfold in_grace. rewrite Hh, Hlk.
+    rewrite (I Hl). apply mem_In in Hp. rewrite Hp. cbn [negb]. rewrite andb_false_r. reflexivity.
+Qed.
+
+(** a block that is not a liveness check leaves a due validator due *)
+Lemma due_quiet_step : forall s v dt, due s v -> is_check_height (height s) = false ->
+  due (step vlt s (EndBlock 1 dt)) v /\ height (step vlt s (EndBlock 1 dt)) = height s + 1.
+Proof.
+  intros s v dt D Hc. destruct D as (W & I & Hl & Hin & He & Hj & Ha & Hp & Hg).
+  destruct (update_grace_total version s W) as [s1 Hu].
+  pose proof (update_grace_lookup version s s1 (v_addr v) Hu) as Hlk.
+  pose proof (step_wf version vlt s (EndBlock 1 dt) W) as W'.
+  pose proof (step_snap_inv version vlt s (EndBlock 1 dt) I) as I'.
+  pose proof (step_legacy_none version vlt s (EndBlock 1 dt) Hl) as L'.
+  pose proof (no_jailing_between_checks_proof version vlt s 1 dt Hc) as V'.
+  assert (E' : step vlt s (EndBlock 1 dt) = set_clock s1 (height s + 1) (now s1 + dt)).
+  { cbn [step]. unfold end_block. rewrite Hu. cbn [fst].
+    apply update_grace_spec in Hu as [blob [_ E]].
+    assert (Hh : height s1 = height s) by (rewrite E; reflexivity). rewrite Hh, Hc. cbv beta iota zeta. rewrite Hh. reflexivity. }
+  apply update_grace_spec in Hu as [blob [_ E]].
+  assert (Hh : height s1 = height s) by (rewrite E; reflexivity).
+  split.
+  - split; [exact W'|]. split; [exact I'|]. split; [exact L'|]. split; [now rewrite V'|].
+    split; [exact He|]. split; [exact Hj|]. split; [|split].
+    + intros u Hu'. rewrite E' in Hu'. cbn [set_clock alive] in Hu'. rewrite E in Hu'. cbn [set_snapshot alive] in Hu'.
+      rewrite E'. cbn [set_clock height]. apply Ha in Hu'. lia.
+    + rewrite E'. cbn [set_clock prev_unjailed]. rewrite E. cbn [set_snapshot prev_unjailed].
+      unfold unjailed_addrs, unjailed. apply in_map. apply filter_In. split; [exact Hin | now rewrite Hj].
+    + intros g Hg'. rewrite E' in Hg'. cbn [set_clock grace] in Hg'.
+      rewrite Hlk, (I Hl) in Hg'. apply mem_In in Hp. rewrite Hp in Hg'. cbn [negb] in Hg'.
+      rewrite andb_false_r in Hg'. apply Hg in Hg'.
+      rewrite E'. cbn [set_clock height]. lia.
+  - rewrite E'. reflexivity.
+Qed.
+
+Lemma not_check_mod : forall h, Gen.C12.check_after < h -> is_check_height h = false -> h mod Gen.C12.check_period <> 0.
+Proof.
+  intros h Hh Hc E. unfold is_check_height in Hc. apply Z.ltb_lt in Hh. rewrite Hh in Hc.
+  apply Z.eqb_eq in E. rewrite E in Hc. discriminate.
+Qed.
+
+Lemma bounded_aux : forall (n : nat) (s : state) v (dts : list Z),
+  due s v -> Gen.C12.check_after < height s ->
+  (exists j, 0 <= j < Z.of_nat n /\ (height s + j) mod Gen.C12.check_period = 0) ->
+  length dts = n ->
+  exists k, (k < n)%nat /\
+    let sk := run vlt (map (EndBlock 1) (firstn k dts)) s in
+    is_check_height (height sk) = true /\
+    settled version (v_addr v) (step vlt sk (EndBlock 1 (nth k dts 0))).
+Proof.
+  induction n as [|n IH]; intros s v dts D Hh [j [Hj Hm]] Hl; [lia|].
+  destruct dts as [|d r]; [discriminate|]. cbn [length] in Hl.
+  destruct (is_check_height (height s)) eqn:Hc.
+  - exists O. split; [lia|]. cbn [firstn map run fold_left nth]. split; [exact Hc|].
+    now apply due_settled_at_check.
+  - pose proof (not_check_mod _ Hh Hc) as Hne.
+    assert (j <> 0) by (intros ->; rewrite Z.add_0_r in Hm; contradiction).
+    destruct (due_quiet_step s v d D Hc) as [D' Hh'].
+    destruct (IH (step vlt s (EndBlock 1 d)) v r D') as [k [Hk Hres]].
+    + lia.
+    + exists (j - 1). split; [lia|]. rewrite Hh'. replace (height s + 1 + (j - 1)) with (height s + j) by lia. exact Hm.
+    + lia.
+    + exists (S k). split; [lia|]. cbn [firstn map nth]. exact Hres.
+Qed.
+
+(** Bounded-time jailing over blocks.  In every history that contains an end-block, above height 50:
+    a validator that is due (eligible, unjailed, keep-alive expired or never sent, already unjailed at
+    the previous block, last grace period over) is — if nothing but blocks follows — jailed or
+    exempt by the network-protection rules at the liveness check that comes within the next 10 blocks,
+    whatever the block times. *)
+Theorem silent_validator_settled_within_period_proof :
+  forall h0 t0 legacy m ops1 dh0 dt0 ops2 (v : val) (dts : list Z),
+  let s := run vlt (ops1 ++ EndBlock dh0 dt0 :: ops2) (init h0 t0 legacy m) in
+  Gen.C12.check_after < height s ->
+  In v (vals s) -> eligible_status (v_status v) = true -> v_jailed v = false ->
+  (forall u, lookup (v_addr v) (alive s) = Some u -> u <= height s) ->
+  In (v_addr v) (prev_unjailed s) ->
+  (forall g, lookup (v_addr v) (grace s) = Some g -> Gen.C12.grace_period < height s - g) ->
+  Z.of_nat (length dts) = Gen.C12.check_period ->
+  exists k, (k < length dts)%nat /\
+    let sk := run vlt (map (EndBlock 1) (firstn k dts)) s in
+    is_check_height (height sk) = true /\
+    exists v', find_val (v_addr v) (vals (step vlt sk (EndBlock 1 (nth k dts 0)))) = Some v' /\
+               (v_jailed v' = true \/ protected (vals (step vlt sk (EndBlock 1 (nth k dts 0)))) v').
+Proof.
+  intros h0 t0 legacy m ops1 dh0 dt0 ops2 v dts s Hh Hin He Hj Ha Hp Hg Hl.
+  assert (D : due s v).
+  { split; [apply run_wf, init_wf|]. split; [apply run_snap_inv, init_snap_inv|].
+    split; [apply legacy_gone_after_first_end_block_proof|]. repeat split; assumption. }
+  destruct (check_height_within_period_proof (height s) Hh) as [k [Hk Hc]].
+  apply (bounded_aux (length dts) s v dts D Hh); [|reflexivity].
+  exists k. split; [lia|]. unfold is_check_height in Hc. apply andb_true_iff in Hc as [_ Hc]. now apply Z.eqb_eq.
+Qed.
+End Bounded.
+
+Module BoundedExample.
+Import Examples.
+(** non-vacuity: at height 51 of the silent history the validator with the 0x2c address is due *)
+Example due_example :
+  let s := run Z.ltb (setup ++ map (fun a => KeepAlive a 7) [a1; a2; a3; a4] ++ repeat (EndBlock 1 2000000000) 50) (init 1 0 None 7) in
+  height s = 51 /\ In v0 (vals s) /\ lookup a0 (alive s) = None /\ In a0 (prev_unjailed s) /\
+  lookup a0 (grace s) = Some 1 /\
+  let s' := run Z.ltb (map (EndBlock 1) (repeat 2000000000 10)) s in
+  height s' = 61 /\ find_val a0 (vals s') = Some (with_jailed true v0).
+Proof. vm_compute. repeat split; auto 10. Qed.
+End BoundedExample.
+
 (** * The float64 share test of Keeper.Jail equals the model's integer test (Flocq) *)
 From Paloma Require Valset.JailShareFloat.
 
